@@ -11,7 +11,7 @@ REPR = ["repr_inline_roundtrip", "repr_from_string_agrees", "repr_long_strings_a
         "repr_id_roundtrip", "repr_inline_and_id_never_collide", "repr_const_literal_ctors"]
 GC = ["gc_sweep_w1", "gc_sweep_w2", "gc_sweep_w3", "gc_sweep_w5", "gc_sweep_blocked_by_unmarked_module", "gc_sweep_blocked_mid_table", "gc_pending_modules_protocol", "gc_sweep_rest_with_huge_work_unit", "gc_sweep_resumes_at_index", "gc_partial_sweep_then_alloc",
       "gc_mark_step", "marked_survives_one_round_only", "promote_static_makes_slot_permanent",
-      "make_permanent_then_sweep", "realloc_after_reclaim_is_fresh", "temp_counter_sync_never_drops_a_slot"]
+      "make_permanent_then_sweep", "realloc_after_reclaim_is_fresh", "temp_counter_sync_never_drops_a_slot", "gc_mark_behind_cursor_survives_round_end"]
 GC_THOROUGH = ["alloc_string_interns"]
 
 USE_LINE = "  collections::{HashMap, HashSet},\n"
